@@ -231,7 +231,14 @@ pub fn c18_dedent(c: &StrCase) -> Outcome {
     let twice = dedent(&got);
     if twice != got {
         // a line whose own text ends in '\r' (e.g. "a\r\r\n"): dedent writes it back followed by '\n', which reads as a CRLF the second time
-        let class = if got.contains("\r\n") { "[class=KF4-line-text-ends-in-cr] " } else { "" };
+        // the class is the negation of U9's `kf4_free`, on which idempotence is PROVED (theorem c18_dedent_idempotent_cr): a line that is
+        // terminated by '\n', has text, and — once its "\n" / "\r\n" is removed — still ends in '\r'
+        let pieces: Vec<&str> = s.split('\n').collect();
+        let in_class = pieces[..pieces.len() - 1].iter().any(|p| {
+            let l = p.strip_suffix('\r').unwrap_or(p);
+            l.chars().any(|c| !c.is_whitespace()) && l.ends_with('\r')
+        });
+        let class = if in_class { "[class=KF4-line-text-ends-in-cr] " } else { "" };
         return Err(format!("{}not idempotent: dedent({:?}) = {:?}, again = {:?}", class, s, got, twice));
     }
     if !s.contains('\r') {
